@@ -1,10 +1,11 @@
 (* C14 — the software reference py4hw.helper.FixedPoint (add / sub / mult on raw encodings), by hand;
    `signExtend` is the REGENERATED helper function (Gen/Helpers.v).  No proofs here.
    Every operation first builds the result object `FixedPoint(sw, iw, fw, 0)`, whose intToFixedPoint
-   evaluates `1 << (iw-1)`: ValueError for iw < 1 (DESIGN §7 #23) — modelled as None. *)
+   evaluates `(1 << iw) >> 1` (since /repo 6fe767a, finding C12-23; before: `1 << (iw-1)`, which raised for iw = 0):
+   ValueError only for a negative iw — modelled as None.  The check `0 > maxv` never fires (maxv >= 0). *)
 From V Require Import Base.PyInt Gen.Helpers Model.Fxp.
 
-Definition fxh_new_ok (F : fmt) : bool := negb (fint F - 1 <? 0).
+Definition fxh_new_ok (F : fmt) : bool := negb (fint F <? 0).
 
 (* r.v = (self.v + b.v) & ((1<<w)-1) *)
 Definition fxh_add (F : fmt) (a b : Z) : option Z :=
